@@ -278,6 +278,27 @@ def families(ctx, rng):
                                  dump_event(evs[combo[-1]])]) if len(set(combo[:-1])) == len(combo[:-1]) else None
                     if req is not None:
                         out.append(({'family': 'disjunction', 'channels': list(combo), 'route': 'api-left'}, v, req, want))
+    # sibling references: a branch of a disjunction may not use an alias bound by another branch of the same disjunction
+    def refpred(al):
+        return ('bin', '>', ('field', ('var', al), 'x'), int_lit(0))
+    for pos in ('activator', 'trigger', 'behaviour', 'terminator'):
+        for width in (2, 3):
+            for binder in range(width):
+                for user in range(width):
+                    if binder == user:
+                        continue
+                    for pk in ('response', 'requirement', 'prevention'):
+                        alts = []
+                        for i in range(width):
+                            alts.append(('ev', f't{i}', 'S' if i == binder else None, refpred('S') if i == user else None))
+                        dis = ('or', alts)
+                        simple = lambda n: ('ev', n, None, None)
+                        sc = 'after_until'
+                        raw = {'scope': (sc, dis if pos == 'activator' else simple('p'), dis if pos == 'terminator' else simple('q')),
+                               'pattern': (pk, dis if pos == 'behaviour' else simple('r'), dis if pos == 'trigger' else simple('s'), None), 'meta': []}
+                        txt = render_property(raw)
+                        vt = verdict(lambda: pp.parse(txt))
+                        out.append(({'family': 'sibling-alias', 'text': txt}, vt, dumps([S('mkprop'), property_to_wire(raw)]), 'sanity'))
     # (iv) quantifier hygiene
     prp = predicate_parser()
     xs = ('field', ('this',), 'xs')
